@@ -29,6 +29,9 @@ I(nf)    == [k |-> "items", n |-> "", notify |-> nf]
 M(nf)    == [k |-> "meta", n |-> "tracked", notify |-> nf]     \* +tracked: the traits carrying that metadata (child)
 ML(nf)   == [k |-> "meta", n |-> "ltracked", notify |-> nf]    \* +ltracked: kids
 A(nf)    == [k |-> "any", n |-> "", notify |-> nf]             \* *
+\* list_items() as written with the expression API, NOT optional: the value must be a list (registration and removal
+\* raise where it is not).  The text form "items" is always optional.
+LI(nf)   == [k |-> "litems", n |-> "", notify |-> nf]
 Paths(e) ==
   CASE e = "value"                    -> {<<T("value", TRUE)>>}
     [] e = "child.value"              -> {<<T("child", TRUE), T("value", TRUE)>>}
@@ -54,6 +57,9 @@ Paths(e) ==
     [] e = "child.s:items.value"      -> {<<T("child", TRUE), T("s", FALSE), I(TRUE), T("value", TRUE)>>}
     [] e = "dl.items.items.value"     -> {<<T("dl", TRUE), I(TRUE), I(TRUE), T("value", TRUE)>>}
     [] e = "dl.items.items"           -> {<<T("dl", TRUE), I(TRUE), I(TRUE)>>}
+    \* box : Union(List(Instance), Int) - holds a list or the int 5; observed through the expression API
+    [] e = "box!items.value"          -> {<<T("box", TRUE), LI(TRUE), T("value", TRUE)>>}
+    [] e = "box!items"                -> {<<T("box", TRUE), LI(TRUE)>>}
     [] e = "csnap"                    -> {<<T("csnap", TRUE)>>}       \* observed properties of the root (C12)
     [] e = "chv"                      -> {<<T("chv", TRUE)>>}
     [] e = "cfirst"                   -> {<<T("cfirst", TRUE)>>}
@@ -61,8 +67,10 @@ Paths(e) ==
 Exprs == {"csnap", "chv", "cfirst", "dlsnap", "d.items", "kids:items.value", "value", "child.value", "child:value", "child.child.value", "kids.items.value", "kids:items:value",
           "child.kids.items.value", "[child,kids.items].value", "kids.items.child.value", "d.items.value",
           "child.d:items.value", "+tracked.value", "+tracked:kids.items", "+ltracked:items.value", "child.*", "kids.items",
-          "child", "s.items.value", "s.items", "child.s:items.value", "dl.items.items.value", "dl.items.items"}
+          "child", "s.items.value", "s.items", "child.s:items.value", "dl.items.items.value", "dl.items.items",
+          "box!items.value", "box!items"}
 
+\* (and box : [Obj -> Seq(Obj)], boxi : [Obj -> 0..1] - 1: box holds the int)
 \* ---- heap: [child : [Obj -> 0..NObj], kids : [Obj -> Seq(Obj)], d : [Obj -> pair sequence key -> Obj], vals,
 \*              s : [Obj -> SUBSET Obj], dl : [Obj -> pair sequence key -> Seq(Obj)], hasx : [Obj -> 0..1], xv : [Obj -> Nat]]
 SeqSet(q) == {q[i] : i \in 1..Len(q)}
@@ -72,7 +80,7 @@ DLGet(dd, k) == dd[CHOOSE i \in 1..Len(dd) : dd[i][1] = k][2]
 DLMembers(dd) == UNION {SeqSet(dd[i][2]) : i \in 1..Len(dd)}
 \* (trait_added: the Event every HasTraits object fires when add_trait gives it a new trait; `*` matches it like any trait,
 \* and it is how a `*` registration learns about traits added later)
-StaticNames == {"child", "kids", "d", "value", "s", "dl", "trait_added"}
+StaticNames == {"child", "kids", "d", "value", "s", "dl", "trait_added", "box"}
 TraitNamesOf(h, x) == StaticNames \cup (IF h.hasx[x] = 1 THEN {"extra"} ELSE {})
 HasTrait(h, x, n) == (n = "value" => x # NoVal) /\ (n = "extra" => h.hasx[x] = 1)
 TrackedBy(md) == IF md = "tracked" THEN {"child"} ELSE IF md = "ltracked" THEN {"kids"} ELSE {}
@@ -86,7 +94,7 @@ NamesOf(h, th, st) == IF st.k = "trait" THEN {st.n} ELSE IF st.k = "meta" THEN T
 \* the observables step st contributes from thing th (whether they exist at all is FailsAt's business)
 ObsOf(h, th, st) ==
   IF th[1] = "o" THEN {<<"trait", th[2], n>> : n \in {m \in NamesOf(h, th, st) : HasTrait(h, th[2], m)}}
-  ELSE IF st.k = "items" THEN {th} ELSE {}
+  ELSE IF st.k \in {"items", "litems"} /\ ~(th[1] = "b" /\ h.boxi[th[2]] = 1) THEN {th} ELSE {}
 \* the things one level further
 NextOf(h, th, st) ==
   IF th[1] = "o"
@@ -96,9 +104,11 @@ NextOf(h, th, st) ==
                 [] n = "d"     -> {<<"m", x>>}
                 [] n = "s"     -> {<<"s", x>>}
                 [] n = "dl"    -> {<<"M", x>>}
+                [] n = "box"   -> {<<"b", x>>}
                 [] OTHER       -> {}
               : n \in NamesOf(h, th, st)}
-  ELSE IF st.k # "items" THEN {}
+  ELSE IF st.k \notin {"items", "litems"} THEN {}
+  ELSE IF th[1] = "b" THEN (IF h.boxi[th[2]] = 1 THEN {} ELSE {<<"o", y>> : y \in SeqSet(h.box[th[2]])})
   ELSE IF th[1] = "l" THEN {<<"o", y>> : y \in SeqSet(h.kids[th[2]])}
   ELSE IF th[1] = "m" THEN {<<"o", y>> : y \in DVals(h.d[th[2]])}
   ELSE IF th[1] = "s" THEN {<<"o", y>> : y \in h.s[th[2]]}
@@ -115,7 +125,10 @@ Notifying(h, e) == {c[1] : c \in {c \in UNION {Covered(h, p) : p \in Paths(e)} :
 AllCovered(h, e) == {c[1] : c \in UNION {Covered(h, p) : p \in Paths(e)}}
 
 \* a registration of e fails iff the walk meets an object lacking a required (non-optional) named trait
-FailsPath(h, p) == \E k \in 1..Len(p) : p[k].k = "trait" /\ \E th \in Level(h, p, k - 1) : th[1] = "o" /\ ~HasTrait(h, th[2], p[k].n)
+FailsPath(h, p) == \E k \in 1..Len(p) :
+                      \/ p[k].k = "trait" /\ \E th \in Level(h, p, k - 1) : th[1] = "o" /\ ~HasTrait(h, th[2], p[k].n)
+                      \* ... or a value that is not a list where list items are required
+                      \/ p[k].k = "litems" /\ \E th \in Level(h, p, k - 1) : th[1] = "b" /\ h.boxi[th[2]] = 1
 Fails(h, e) == \E p \in Paths(e) : FailsPath(h, p)
 
 \* ---- mutations.  m = [op, x, a, xs, ps]; kids operations are those of TraitList on object numbers,
@@ -150,6 +163,11 @@ Mutate(h, m) ==
                                              [] m.op = "delitem" -> DLDel(@, m.a[1])         \* (absent key: KeyError, no change)
                                              [] m.op = "clear" -> <<>>]
     [] m.t = "dlin" -> IF InnerOK(h, m) THEN [h EXCEPT !.dl[m.x] = DLPut(@, m.a[4], MutInner(h, m).post)] ELSE h
+    \* box: whole-value assignment of a list; in-place list operations; the int 5 assigned (m.a[2] = 1: QUIETLY, with
+    \* trait_setq - nobody is told, the hooks stay where they were)
+    [] m.t = "boxassign" -> [h EXCEPT !.box[m.x] = m.xs, !.boxi[m.x] = 0]
+    [] m.t = "box" -> [h EXCEPT !.box[m.x] = L!Apply(m.op, h.box[m.x], "id", m.a, m.xs).post]
+    [] m.t = "boxint" -> [h EXCEPT !.box[m.x] = <<>>, !.boxi[m.x] = 1]
     \* del obj.<link> (also reset_traits): the attribute is back at its default - None, a FRESH empty container - which
     \* takes the place of the former value in every observed path
     [] m.t = "del" -> (CASE m.op = "child" -> [h EXCEPT !.child[m.x] = NoneO]
@@ -168,6 +186,7 @@ Hit(m) == CASE m.t = "child" -> <<"trait", m.x, "child">> [] m.t = "kidsassign" 
             [] m.t = "addx" -> <<"trait", m.x, "trait_added">>
             [] m.t = "xv" -> <<"trait", m.x, "extra">>
             [] m.t = "del" -> <<"trait", m.x, m.op>>
+            [] m.t \in {"boxassign", "boxint"} -> <<"trait", m.x, "box">> [] m.t = "box" -> <<"b", m.x>>
 IsChange(h, m) ==
   CASE m.t = "child" -> TRUE                                     \* comparison mode none: every assignment
     [] m.t = "kidsassign" -> h.kids[m.x] # m.xs                   \* equality mode: an equal list is no change
@@ -182,6 +201,9 @@ IsChange(h, m) ==
     [] m.t = "dlin" -> InnerOK(h, m) /\ MutInner(h, m).post # DLGet(h.dl[m.x], m.a[4])
     [] m.t = "addx" -> TRUE                     \* an Event: every firing is a change
     [] m.t = "xv" -> TRUE
+    [] m.t = "boxassign" -> h.boxi[m.x] = 1 \/ h.box[m.x] # m.xs
+    [] m.t = "box" -> L!Apply(m.op, h.box[m.x], "id", m.a, m.xs).post # h.box[m.x]
+    [] m.t = "boxint" -> h.boxi[m.x] = 0 /\ m.a[2] = 0
     \* a deletion is a change from the former value to the default (whether deleting a value equal to the default
     \* notifies is left open)
     [] m.t = "del" -> (CASE m.op = "child" -> h.child[m.x] # NoneO [] m.op = "kids" -> h.kids[m.x] # <<>>
@@ -190,7 +212,7 @@ IsChange(h, m) ==
 \* (sets: operations that change nothing are silent - C07; storing an equal list under an existing key of dl is a dict event)
 MayNotify(h, m) == IsChange(h, m) \/ (m.t \in {"kids", "d"} /\ (IF m.t = "kids" THEN MutKids(h, m) ELSE MutD(h, m)).excs = {""})
                    \/ (m.t = "dl" /\ m.op = "setitem") \/ (m.t = "dlin" /\ MutInner(h, m).excs = {""})
-                   \/ m.t = "del"
+                   \/ m.t = "del" \/ (m.t = "box" /\ L!Apply(m.op, h.box[m.x], "id", m.a, m.xs).excs = {""})
 
 \* ---- observed properties (C12): name -> dependency expression; value computed from the heap
 \* cfirst: a CACHED property whose value is None (-2 here) while the root has no child - "not computed yet" and
@@ -215,7 +237,7 @@ CalledViaProp(h, e, m) == e \in Props /\ Relevant(h, e, m)
 \* ---- known finding F8 (found by TLC on ObserveImpl.tla): a link of an object that lies on a cycle of the
 \* heap is mutated - the maintainers' removal walk from the old value re-reads the object's new link
 Succs(h, x) == (IF h.child[x] = NoneO THEN {} ELSE {h.child[x]}) \cup SeqSet(h.kids[x]) \cup DVals(h.d[x])
-               \cup h.s[x] \cup DLMembers(h.dl[x])
+               \cup h.s[x] \cup DLMembers(h.dl[x]) \cup SeqSet(h.box[x])
 RECURSIVE Closure(_, _)
 Closure(h, Q) == LET Q2 == Q \cup UNION {Succs(h, x) : x \in Q} IN IF Q2 = Q THEN Q ELSE Closure(h, Q2)
 OnCycle(h, x) == x \in Closure(h, Succs(h, x))
